@@ -287,7 +287,7 @@ func init() {
 	register(&propertySpec{
 		ID:      "C15",
 		Explain: "Static pairing rules for the coupling between state changes and the cron service: the add / removal hooks are run for every id that enters / leaves a state's fact map, one-shot rules are removed after they ran, and the key under which a shared cron service registers a rule depends on the location. Does not decide tick timing or which location a tick is evaluated in.",
-		Rules:   []ruleFn{ruleHookRem, ruleHookAdd, ruleHooksBeforeLoad, ruleOneShot, ruleCronResched, ruleCronRearm("C15"), ruleTimelineOrder("C15"), ruleCroltURL("C15"), ruleCronKey("C15"), ruleHookAddKeeps, ruleCronNextZero("C15"), ruleOneShotAgree, ruleHookBeforeStore("C15"), ruleHookReplace, ruleHookRemMissing, ruleHookLoadTolerant("C15"), ruleCroltEscape("C15"), ruleJSONQuote("C15", "cron"), ruleCronInflight("C15"), ruleCroltStatus("C15"), ruleCronLimitFirst("C15"), ruleCtxPerGoroutine("C15"), ruleCronKeyInj("C15"), ruleScheduleRegisters},
+		Rules:   []ruleFn{ruleGateKeys, ruleHookRem, ruleHookAdd, ruleHooksBeforeLoad, ruleOneShot, ruleCronResched, ruleCronRearm("C15"), ruleTimelineOrder("C15"), ruleCroltURL("C15"), ruleCronKey("C15"), ruleHookAddKeeps, ruleCronNextZero("C15"), ruleOneShotAgree, ruleHookBeforeStore("C15"), ruleHookReplace, ruleHookRemMissing, ruleHookLoadTolerant("C15"), ruleCroltEscape("C15"), ruleJSONQuote("C15", "cron"), ruleCronInflight("C15"), ruleCroltStatus("C15"), ruleCronLimitFirst("C15"), ruleCtxPerGoroutine("C15"), ruleCronKeyInj("C15"), ruleScheduleRegisters},
 	})
 }
 
